@@ -23,7 +23,7 @@ use poulpy_verif_harness::with_be;
 
 fn base_exec(r: &Rec) -> Out {
     let c = r.code;
-    if (7000..8000).contains(&c) { c07::exec(r) } else if (8000..9000).contains(&c) { c08::exec(r) } else { c09::exec(r) }
+    if (7000..8000).contains(&c) || (5000..6000).contains(&c) { c07::exec(r) } else if (8000..9000).contains(&c) { c08::exec(r) } else { c09::exec(r) }
 }
 
 /// one sampler call: header [0, n, cols, size, col, base2k, k, sigma*1000, bound*1000, seed]; returns (result words, next 32 stream bytes)
@@ -106,7 +106,8 @@ pub fn generate(tier: &str, seed: u64) -> Vec<Rec> {
     // big-accumulator records (9101..9116) carry a domain tag at ps[16]: only the common-domain ones (0) are comparable across families
     base.extend(c09::generate(tier, seed.wrapping_add(9)).into_iter().filter(|r| !(9100..9200).contains(&r.code) || r.ps[16] == 0));
     // DFT-domain ops: force the FFT64 magnitude domain for every record (be = 1 at generation time)
-    base.extend(c07::generate(tier, seed.wrapping_add(7)).into_iter().filter(|r| (7000..7100).contains(&r.code) && r.ps[0] <= 2));
+    // (and the HAL convolution records 5001..5004, which c07::generate passes through from the C05 harness code)
+    base.extend(c07::generate(tier, seed.wrapping_add(7)).into_iter().filter(|r| ((7000..7100).contains(&r.code) || (5001..=5004).contains(&r.code)) && r.ps[0] <= 2));
     let mut out: Vec<Rec> = base.into_iter().map(|r| { let mut ps = r.ps.clone(); ps[0] = 0; Rec::new(100000 + r.code, ps, r.vs) }).collect();
     // NTT120 family only: i128 big-accumulator operands (normalisers generated for be >= 3, big ring operations outside the common domain)
     let fam8 = c08::generate(tier, seed.wrapping_add(8)).into_iter().filter(|r| (8201..8300).contains(&r.code) && r.ps[0] >= 3);
